@@ -162,6 +162,11 @@ impl Report {
 	}
 }
 
+/// output root (evidence/, replays/): /verif unless GV_OUT is set (builder workspaces)
+pub fn out_root() -> String {
+	std::env::var("GV_OUT").unwrap_or_else(|_| "/verif".to_string())
+}
+
 pub fn hash64<T: Hash>(t: &T) -> u64 {
 	let mut h = std::collections::hash_map::DefaultHasher::new();
 	t.hash(&mut h);
@@ -185,7 +190,8 @@ struct Known {
 }
 
 fn load_known() -> Vec<Known> {
-	let p = "/verif/known_findings.json";
+	let p = format!("{}/known_findings.json", out_root());
+	let p = if std::path::Path::new(&p).exists() { p } else { "/verif/known_findings.json".to_string() };
 	let mut out = vec![];
 	if let Ok(s) = std::fs::read_to_string(p) {
 		if let Ok(v) = serde_json::from_str::<Value>(&s) {
@@ -287,7 +293,7 @@ pub fn finish(f: Finish, parts: Vec<(String, Report)>) -> i32 {
 	}
 	let mut replay_paths = vec![];
 	if !real.is_empty() {
-		let dir = format!("/verif/replays/{}", f.prop);
+		let dir = format!("{}/replays/{}", out_root(), f.prop);
 		let _ = std::fs::create_dir_all(&dir);
 		for v in &real {
 			let path = format!("{}/{:016x}.json", dir, hash64(&v.key));
@@ -335,8 +341,8 @@ pub fn finish(f: Finish, parts: Vec<(String, Report)>) -> i32 {
 		"wall_s": f.start.elapsed().as_secs_f64(),
 		"violations": real.len(),
 	});
-	let _ = std::fs::create_dir_all("/verif/evidence");
-	let path = format!("/verif/evidence/{}.json", f.prop);
+	let _ = std::fs::create_dir_all(format!("{}/evidence", out_root()));
+	let path = format!("{}/evidence/{}.json", out_root(), f.prop);
 	std::fs::write(&path, serde_json::to_string_pretty(&ev).unwrap()).expect("write evidence");
 	println!(
 		"{} {}: evaluations={} distinct={} states={} transitions={} outcome_classes={} violations={} known={} wall={:.1}s{}",
